@@ -382,7 +382,13 @@ def cli_matrix(tier):
                 os.makedirs(os.path.join(d, 'in put', '.sub'), exist_ok=True)
                 os.symlink(os.path.join(d, 'in put', '.sub'), os.path.join(cwd, 'inlnk'))
                 inp_arg = os.path.join('inlnk', '..', 'request.txt')
-            r = subprocess.run([sys.executable, '-m', 'geophires_x', inp_arg] + ([arg] if arg else []),
+            if c['out'] == 'rel_dash':
+                cmd_tail = [inp_arg, '--', arg]
+            elif c['id'] % 5 == 0:
+                cmd_tail = ['--', inp_arg] + ([arg] if arg else [])
+            else:
+                cmd_tail = [inp_arg] + ([arg] if arg else [])
+            r = subprocess.run([sys.executable, '-m', 'geophires_x'] + cmd_tail,
                                cwd=cwd, env=env, capture_output=True, text=True, timeout=300)
             after = histsim.list_dir(d)
             out = {'rc': r.returncode, 'report': None, 'json': os.path.exists(jp), 'new': sorted(after - before),
